@@ -21,9 +21,9 @@ def digest(o) -> str:
 def slice_specs(tier):
     from mc import universe as U
 
-    specs = U.universe("quick", ("F1", "F2", "F3", "F4", "F5"))
+    specs = U.universe("quick", ("F1", "F2", "F3", "F4", "F5", "F7"))
     keep = []
-    step = {"F1": 9, "F2": 5, "F5": 5} if tier == "quick" else {"F1": 2, "F2": 1, "F5": 1}
+    step = {"F1": 9, "F2": 5, "F5": 5, "F7": 4} if tier == "quick" else {"F1": 2, "F2": 1, "F5": 1, "F7": 1}
     count = {}
     for s in specs:
         fam = s["tag"][:2]
